@@ -145,8 +145,18 @@ fn parse_uri(buf: &[u8]) -> Result<(RequestUri<'_>, &[u8]), HttpParsingError> {
     // scan path up to first '?' or SP
     i += match_path_vectored(&buf[i..]);
 
-    // i is now equal to end of path (OR first illegal character)
+    // i is now equal to end of path
     let path_end_i = i;
+
+    // the path may only contain visible ASCII, like the rest of the target
+    let bad = path_start_i + match_uri_vectored(&buf[path_start_i..path_end_i]);
+    if bad < path_end_i {
+        return Err(match buf[bad] {
+            // the request line ended before any version was given
+            b'\r' | b'\n' => UnsupportedHttpVersion,
+            _ => MalformedStatusLine,
+        });
+    }
 
     // if next byte is '?', consume query using bulk URI validation until SP.
     if let Some(&b'?') = buf.get(i) {
